@@ -366,6 +366,53 @@ def rule_entries(facts):
         else:
             r.bad("%s|props" % tn, "reset re-initialises with %s, the constructor uses %s"
                   % (flow.show(pa)[:80], flow.show(pc)[:80]), where)
+    # every field of the two raw decoders is either configuration (never written after construction) or state that the
+    # reset entry point puts back to the constructor's value (the field list comes from the ADT: a new field is an obligation)
+    for tn in ("decode::lzma::LzmaDecoder", "decode::lzma2::Lzma2Decoder"):
+        adt = facts.adt(tn)
+        rs = pat.body_of(facts, "%s::reset" % tn.split("::")[-1])
+        new = pat.body_of(facts, "%s::new" % tn.split("::")[-1])
+        if adt is None or rs is None or new is None:
+            continue
+        tmr_, tmn_ = Terms(rs), Terms(new)
+        names = [f_["name"] for f_ in adt["variants"][0]["fields"]]
+        ctor = {}
+        for blk in new.blocks:
+            for s_ in blk.stmts:
+                if s_.k == "assign" and s_.rv.k == "aggregate" and s_.rv.agg == "adt" and s_.rv.adt_name == tn and len(s_.rv.ops) == len(names):
+                    ctor = {names[i]: strip_call_bb(tmn_.of_operand(o)) for i, o in enumerate(s_.rv.ops)}
+        for f_ in names:
+            if f_ in ("state", "lzma_state"):
+                continue        # the DecoderState: reset_state (above)
+            writers = []
+            for b in facts.bodies:
+                if b.promoted is not None or short(b.name).split("::<")[0].endswith("%s::new" % tn.split("::")[-1]):
+                    continue
+                for blk in b.blocks:
+                    if blk.cleanup:
+                        continue
+                    for s_ in blk.stmts:
+                        if s_.k != "assign":
+                            continue
+                        hit = any(pr[0] == "field" and pr[2] == f_ and pr[4] == tn for pr in s_.place.proj) or \
+                            (s_.rv.k == "ref" and s_.rv.mut and any(pr[0] == "field" and pr[2] == f_ and pr[4] == tn for pr in s_.rv.place.proj))
+                        if hit:
+                            writers.append((b, blk.idx, s_))
+            r.sites += 1
+            if not writers:
+                r.ok("who-writes", {"type": tn.split("::")[-1], "field": f_, "kind": "configuration (never written after construction)"})
+                continue
+            inreset = [(b, bb, s_) for (b, bb, s_) in writers if b.defk == rs.defk and s_.place.proj and s_.place.proj[-1][2] == f_]
+            good = False
+            for (b, bb, s_) in inreset:
+                if strip_call_bb(tmr_.of_rvalue(s_.rv, 0)) == ctor.get(f_):
+                    good = True
+            if good:
+                r.ok("sibling", {"type": tn.split("::")[-1], "field": f_, "reset": "restores the constructor's value"})
+            else:
+                w = writers[0]
+                r.bad("%s|field:%s" % (tn.split("::")[-1], f_), "`%s` changes while decoding (%s) but reset does not put it back to the constructor's "
+                      "value (%s): a reset decoder differs from a new one" % (f_, short(w[0].name), flow.show(ctor.get(f_))[:40]), pat.where(w[0], w[1]))
     # no other writer of params / memlimit
     for b in facts.bodies:
         if b.promoted is not None:
